@@ -866,7 +866,11 @@ Proof. split; [|split]; vm_compute; reflexivity. Qed.
 
 (* calls round-trip on examples (the general proof covers the operator subset only) *)
 Example parse_print_call_example :
-  forall e, parse (s2l "-x^2 + (2**3)**x/4*f(x, g(), r+1)") = Some e ->
-  parse (print full e) = Some e /\ parse (print plain e) = Some e.
-Proof. vm_compute. intros e H. injection H as <-. split; reflexivity. Qed.
-
+  match parse (s2l "-x^2 + (2**3)**x/4*f(x, g(), r+1)") with
+  | Some e => match parse (print full e), parse (print plain e) with
+              | Some e1, Some e2 => str_eqb (print plain e1) (print plain e) && str_eqb (print full e2) (print full e)
+              | _, _ => false
+              end
+  | None => false
+  end = true.
+Proof. vm_compute. reflexivity. Qed.
